@@ -15,10 +15,19 @@ for res in sorted(glob.glob("/tmp/mutlane*/results/*.json"), key=lambda x: os.pa
     d = f"{OUT}/{pid}-{v}"
     os.makedirs(d, exist_ok=True)
     if not r.get("applies", True):
+        # superseded: a later repair in /repo rewrote the lines the change touched (kept for the record)
+        for fn in ("patch.diff", "demo.rs", "demo.sh", "README.md", "patch.orig.diff"):
+            if os.path.exists(f"{src}/{fn}"):
+                shutil.copy(f"{src}/{fn}", f"{d}/{fn}")
+        meta = json.load(open(f"{src}/meta.json"))
+        meta.update({"id": f"{pid}-{v}", "origin": "fresh sub-agent given only the property text and a scratch worktree",
+                     "confirmed_by_coordinator": {"no_longer_applies": True, "note": "the patch no longer applies: a repair made in /repo after this change was confirmed and caught rewrote the same lines (see DESIGN.md §10)"}})
+        json.dump(meta, open(f"{d}/meta.json", "w"), indent=1, ensure_ascii=False)
+        rows.append((f"{pid}-{v}", meta.get("title", ""), meta.get("needs_to_manifest", ""), "obsolete", False, []))
         continue
     diff = r.get("patch", "")
     shutil.copy(diff if os.path.exists(diff) else f"{src}/patch.diff", f"{d}/patch.diff")
-    for fn in ("demo.rs", "README.md", "patch.orig.diff", "demo.orig.rs"):
+    for fn in ("demo.rs", "demo.sh", "README.md", "patch.orig.diff", "demo.orig.rs"):
         if os.path.exists(f"{src}/{fn}"):
             shutil.copy(f"{src}/{fn}", f"{d}/{fn}")
     meta = json.load(open(f"{src}/meta.json"))
